@@ -16,6 +16,7 @@ def H(name, tier="q", bounds=""):
 
 PROPS = {
     "C06": {
+        "assumptions": ['Engine M until/since jobs: default rounding (smallest unit nanosecond, increment 1); the generic rounder instantiated at T = i128'],
         "m": "specs.c06",
         "k": [
             H("c06::c06_instant_add_seconds", "q", "Instant::add with a seconds-only duration: any integral double |v| < 9e24 the duration admits (far beyond 2^53), receiver any instant: exact integer sum, range-checked"),
@@ -49,6 +50,7 @@ PROPS = {
                    "consecutive-day property; case-insensitive identifier parsing",
     },
     "C14": {
+        "assumptions": ['environment: the synthetic solver-chosen one-transition TimeZoneProvider of C13 (candidates ascending, offset in force)', 'zdt_add: Calendar is the ISO calendar (Calendar::is_iso modelled as true for the opaque calendar value)'],
         "m": "specs.c14",
         "k": [],
         "bounds": {"all": "Engine M over the real ZonedDateTime::start_of_day_with_provider / hours_in_day_with_provider / TimeZone::get_start_of_day / "
@@ -61,6 +63,7 @@ PROPS = {
                    "Kani harnesses for start_of_day/hours_in_day/add (harness/src/c14.rs) exist but CBMC does not finish them within 15 min",
     },
     "C19": {
+        "assumptions": ['Engine M wiring job: `*_with_provider` twins are uninterpreted; TZ_PROVIDER.lock() is modelled as succeeding (poisoning is C20); wrappers `fmt` and `with_plain_time` are not executable and not covered'],
         "m": "specs.c19",
         "k": [
             H("c19::c19_ffi_enums", "q", "temporal_capi enum conversions: every variant of RoundingMode, Unit, Disambiguation, OffsetDisambiguation"),
@@ -117,6 +120,7 @@ PROPS = {
         "outside": "PlainDateTime / PlainYearMonth / ZonedDateTime partials, era-based records and non-ISO calendars",
     },
     "C15": {
+        "assumptions": ["environment (Engine M provider_offset): FsTzdbProvider::get returns the zone's table and Tzif::get answers by its contract 'offset of the period containing the second' (decided on symbolic tables by the Kani harness c15_tzif_get) for a one-transition zone chosen by the solver", 'Kani harnesses: TZif v2 tables built directly from symbolic values (public fields of tzif::data), no footer; transitions strictly ascending as RFC 8536 requires'],
         "m": "specs.c15",
         "k": [
             H("c15::c15_tzif_get", "q", "Tzif::get on symbolic TZif v2 tables: 1..=3 strictly ascending transitions in +-4e9 s, 2..=3 local-time types with |utoff| <= 26 h, query second anywhere before the last transition"),
@@ -128,6 +132,7 @@ PROPS = {
         "outside": "PARTIAL: POSIX footer evaluation, real zoneinfo files, provider cache purity, file I/O and the identifier check are not covered yet",
     },
     "C13": {
+        "assumptions": ['environment: the TimeZoneProvider is a synthetic zone chosen by the solver (one transition at a symbolic second, symbolic offsets), answering get_named_tz_epoch_nanoseconds with the candidates in ascending order and get_named_tz_offset_nanoseconds with the offset in force - the provider contract of src/provider.rs', "environment (offset_record jobs): Fraction::to_nanoseconds = Some(ns) iff digits <= 9; the parser's offset record is arbitrary within hour 0..=23, minute/second 0..=59", "interpret_offset: the callers' contract match_minutes = true and is_exact => no offset value"],
         "m": "specs.c13",
         "k": [],
         "bounds": {"all": "Engine M over the real TimeZone::get_epoch_nanoseconds_for / disambiguate_possible_epoch_nanos / get_iso_datetime_for MIR with a synthetic zone chosen by the solver: "
@@ -139,6 +144,7 @@ PROPS = {
                    "Kani harnesses for the same functions exist (harness/src/c13.rs) but CBMC does not finish them within 15 min",
     },
     "C12": {
+        "assumptions": ["environment (Engine M record jobs): parsers::parse_ixdtf returns an arbitrary record within ixdtf 0.4's output contract (year -999999..=999999, valid month/day, hour 0..=23, minute 0..=59, second 0..=60, fraction of 1..=12 digits, offset hour 0..=23, minute/second 0..=59; short month-day form: month 1..=12, day 1..=31 unvalidated), no annotations; Fraction::to_nanoseconds = Some(ns) iff digits <= 9", 'contracts (Engine M record_instant): IsoDate::balance / to_epoch_days are replaced by their contracts, which the lemma jobs C12.lemma.* discharge for years +-1000001 / days +-3.66e8 in the same run', 'error payloads of Result::map_err closures are not modelled (kind taken as RangeError where the closure constructs TemporalError::range())'],
         "m": "specs.c12",
         "k": [
             H("c12::c12_offset_ascii_6", "q", "UtcOffset::from_str on every ASCII string of <= 6 bytes vs the minute-precision UTC offset grammar"),
@@ -157,6 +163,7 @@ PROPS = {
                    "ZonedDateTime / Duration strings at record level; longer strings for the character parsers; Calendar::from_utf8 case-insensitivity",
     },
     "C04": {
+        "assumptions": ['compositional step (add_date): AddISODate is shown to call IsoDate::balance exactly once with (intermediate year, month, constrained day + days + 7*weeks) and to return its result; BalanceISODate itself is decided for every argument by C01 (C01.balance.*)'],
         "m": "specs.c04",
         "k": [
             H("c04::c04_date_add_api_2000", "t", "PlainDate::add (API level): receiver any date in 1999..=2001, duration years 0..1, months 0..13, weeks 0..2, days 0..40, hours 0..60 times a common sign, both overflow modes"),
@@ -171,6 +178,7 @@ PROPS = {
                    "IsValidDuration is used through its summary (decided by C09); compositional steps rely on C01 (BalanceISODate for all arguments)",
     },
     "C05": {
+        "assumptions": ['compositional steps (from_epoch_nanos round trip, RoundISODateTime, AddDateTime): the date part is shown to be BalanceISODate / AddISODate of exactly the stated arguments; those kernels are decided by C01 / C04'],
         "m": "specs.c05",
         "k": [],
         "bounds": {"quick": "Engine M: BalanceTime for |fields| <= 2^53, AddTime for every time and |duration| < 2^53 s, from_epoch_nanos for every instant, "
@@ -179,6 +187,7 @@ PROPS = {
         "outside": "PlainDateTime::add/until/since wrappers and DifferenceISODateTime (calendar + Duration plumbing) - not executed by Engine M yet",
     },
     "C09": {
+        "assumptions": ['Engine M jobs: fields are integral doubles within the exact-float envelope (|days| <= 1e8, other fields <= 2^40 / 2^30); generic helpers instantiated at T = i64'],
         "m": "specs.c09",
         "k": [
             H("c09::c09_valid_sign", "q", "Duration::new: all ten fields integral in -1000..=1000 (symbolic): valid iff sign-uniform"),
